@@ -1080,6 +1080,47 @@ vbi3_bit_slicer_set_params	(vbi3_bit_slicer *	bs,
 		break;
 	}
 
+	{
+		uint64_t lookahead;
+
+		/* The slicer functions do not check for the end of the
+		   line while they read FRC and payload. Limit the CRI
+		   search such that the last sampling point, the sample
+		   after it (linear interpolation) and the low pass
+		   window still lie within samples_per_line. */
+		lookahead = 1;
+
+		if (data_bits > 0) {
+			lookahead += (bs->phase_shift
+				      + (uint64_t)(data_bits - 1) * bs->step)
+				>> 8;
+		}
+
+		if (low_pass_bit_slicer_Y8 == bs->func)
+			lookahead += (1 << LP_AVG) - 1;
+
+		if (lookahead >= samples_per_line) {
+			warning (&bs->log,
+				 "%u samples_per_line too small for "
+				 "%u frc_bits and %u payload_bits.",
+				 samples_per_line, frc_bits, payload_bits);
+			goto failure;
+		}
+
+		cri_end = MIN (cri_end,
+			       samples_per_line - (unsigned int) lookahead);
+
+		if (cri_end <= sample_offset) {
+			warning (&bs->log,
+				 "No room for a CRI between sample_offset %u "
+				 "and cri_end %u.",
+				 sample_offset, cri_end);
+			goto failure;
+		}
+
+		bs->cri_samples = cri_end - sample_offset;
+	}
+
 	return TRUE;
 
  failure:
